@@ -149,6 +149,11 @@ def analyse_unit(r, tops, allowed_assumptions, support=None):
             out['assumptions'].append(a2)
             if not ok:
                 out['inconclusive'].append({'why': 'unlisted-assumption', 'detail': a2})
+    # std calls replaced by the loop std documents them to be (verified loop, assumed equivalence)
+    if any(by_path[p].short == 'extend_rev_range' for p in cone if p in by_path):
+        out['assumptions'].append({'kind': 'std-documented-loop', 'allowed': True,
+                                   'name': 'T5: `v.extend((a..b).rev())` is the loop pushing b-1, b-2, .., a (Extend / Rev<Range> as documented); '
+                                           'the loop is verified, the equivalence is assumed'})
     return out
 
 
